@@ -18,7 +18,7 @@ whose own adjoint rule is wrong.
 """
 import numpy as np
 
-from vlib import flat, zoo_linops as zoo
+from vlib import build, flat, zoo_linops as zoo
 from vlib.core import Violation, Outcome, HarnessError
 from vlib.core import import_odl
 
@@ -68,6 +68,10 @@ TOLERANCES = {
                       'when ||M J_X - J_Y M|| is within it',
     'linearity': '|A(x) - M x| <= 4*64*eps*dim*(||M|| ||x||) on one vector, '
                  'A(0) = 0 to the same tolerance',
+    'inplace': '||M_inplace - M||_F + |A(0)_inplace - A(0)| <= 2*64*eps*dim*'
+               '||M||-bound for A, A.adjoint and A.adjoint.adjoint (out= '
+               'element NaN-filled before every call); Gram identity on the '
+               'in-place matrices to twice the gram tolerance',
     'pair': '|Re<Ax,y> - Re<x,A*y>| <= 4*64*eps*dim*scale*||x||*||y|| for '
             'one dense pair (cross-check of the matrix identity)',
     'dft_proportional': 'column-/row-wise fit N = M^T diag(w): residual <= '
@@ -313,6 +317,60 @@ class Engine(object):
         return M, off
 
 
+    def matrix_inplace(self, op, dom, ran):
+        """The same matrix through ``op(x, out=z)`` with a NaN-filled ``z``
+        (``None`` for field-valued operators, which document that ``out``
+        cannot be used)."""
+        if isinstance(ran, Field):
+            return None
+        n, m = flat.rdim(dom), flat.rdim(ran)
+        M = np.empty((m, n + 1))
+        eye = np.eye(n)
+        for k in range(n + 1):
+            x = flat.unflat(eye[k] if k < n else np.zeros(n), dom)
+            z = ran.element()
+            for arr in build.leaf_arrays_of(z):
+                arr[...] = np.nan
+            op(x, out=z)
+            M[:, k] = flat.flat(z, ran)
+        return M[:, :n], M[:, n]
+
+    def both_styles(self, op, dom, ran, M, off, what, tail, tol):
+        """In-place matrix of ``op``; it has to agree with the out-of-place
+        one (``M``, ``off``).  Returns the in-place matrix or None."""
+        cls = type(op).__name__
+        try:
+            res = self.matrix_inplace(op, dom, ran)
+        except Exception as e:  # noqa
+            where, site = _where(e)
+            if where != 'odl':
+                raise
+            raise Violation(
+                'C05|inplace-crash|{}|{},of={}|{}'.format(
+                    cls, tail.split('|', 1)[1], what, type(e).__name__),
+                '{}(x, out=z) raises {!r} [{}] while {}(x) works'.format(
+                    what, e, site, what))
+        if res is None:
+            self.strata.append('style:in-place-n/a(field-valued)')
+            return None
+        Mi, offi = res
+        self.strata.append('style:in-place')
+        err = _fro(Mi - M) + _fro(offi - off)
+        if not err <= tol:      # also catches NaN left in ``out``
+            d = np.abs(Mi - M)
+            bad = ~(d <= tol)
+            i, j = np.argwhere(bad)[0] if np.any(bad) else (0, 0)
+            raise Violation(
+                'C05|inplace-matrix|{}|{},of={}'.format(
+                    cls, tail.split('|', 1)[1], what),
+                '{what}(x, out=z) differs from {what}(x): ||M_inplace - '
+                'M||_F = {err:.4g} (tol {tol:.3g}), e.g. entry ({i}, {j}): '
+                '{a!r} in place vs {b!r} out of place; operator = {op!r}'
+                ''.format(what=what, err=err, tol=tol, i=int(i), j=int(j),
+                          a=float(Mi[i, j]), b=float(M[i, j]), op=op)[:900])
+        return Mi
+
+
 def _fro(a):
     return float(np.sqrt(np.sum(np.abs(a) ** 2)))
 
@@ -489,6 +547,10 @@ def check_operator(node, eng, bound_children):
                         '|A(x) - sum x_k A(e_k)| = {:.3g} (tol {:.3g})'.format(
                             _fro(off), _fro(Ax - M @ x), lin_tol))
 
+    eng.strata.append('style:out-of-place')
+    style_tol = max(ktol * bound * 2, floor)
+    M_ip = eng.both_styles(A, X, Y, M, off, 'A', tail, style_tol)
+
     # ---- the adjoint ------------------------------------------------------
     expect, exc_types, why = zoo.adjoint_expectation(node)
     eng.strata.append('expect:' + expect)
@@ -601,6 +663,21 @@ def check_operator(node, eng, bound_children):
                             info + '; ' + detail)
         raise Violation('C05|gram|' + tail, detail)
 
+    # ---- the same through in-place evaluation (the call form solvers and
+    # odl.matrix_representation use) -------------------------------------
+    N_ip = eng.both_styles(adj, Y, X, N, offa, 'A.adjoint', tail,
+                           max(ktol * max(_fro(N), bound) * 2, floor))
+    if M_ip is not None or N_ip is not None:
+        lhs_i = (N if N_ip is None else N_ip).T @ GX
+        rhs_i = GY @ (M if M_ip is None else M_ip)
+        if not _fro(lhs_i - rhs_i) <= 2 * tol:
+            raise Violation('C05|gram-inplace|' + tail,
+                            'Gram identity fails for the matrices obtained '
+                            'with out=: ||N^T G_X - G_Y M||_F = {:.4g} (tol '
+                            '{:.3g}); {}'.format(_fro(lhs_i - rhs_i), 2 * tol,
+                                                 _worst(lhs_i, rhs_i)))
+        eng.strata.append('gram-inplace-checked')
+
     # ---- one direct pair (the form in which the property is stated) -------
     xv = np.cos(np.arange(1, n + 1) * 1.7) * 2.0
     yv = np.sin(np.arange(1, m + 1) * 0.9 + 0.3) * 1.5
@@ -681,6 +758,7 @@ def check_operator(node, eng, bound_children):
                         'A.adjoint.adjoint does not act like A: ||M2 - M||_F '
                         '= {:.4g} (||M|| = {:.4g}); A = {!r}'.format(
                             e2, mfro, A)[:700])
+    eng.both_styles(aa, X, Y, M2, off2, 'A.adjoint.adjoint', tail, style_tol)
     eng.strata.append('adjadj-checked')
     return bound
 
@@ -717,9 +795,11 @@ def _option_tag(node):
         sw, ow = arr(vf[3] if len(vf) > 3 else None), arr(d['w'])
         if np.array_equal(sw, ow):
             return 'opt=w-eq'
-        if np.any(np.isclose(sw, ow) & (sw != ow)):
-            return 'opt=w-near'
         return 'opt=w-ne'
+    if e == 'matrix':
+        A = node.op
+        res = np.promote_types(A.domain.dtype, A.matrix.dtype)
+        return 'opt=dt-widen' if res != A.range.dtype else ''
     if e == 'cembed':
         s = complex(d['s'])
         return 'opt=' + ('re' if s.imag == 0 else 'im' if s.real == 0
@@ -847,6 +927,8 @@ def _run_case(desc):
 
 
 REQUIRED_STRATA = [
+    'style:out-of-place', 'style:in-place', 'gram-inplace-checked',
+    'style:in-place-n/a(field-valued)',
     'family:tree', 'family:blocks', 'family:fourier', 'family:wavelet',
     'blockshape:1x2', 'blockshape:2x1', 'blockshape:2x3', 'blockshape:3x2',
     'blocks:non-square', 'blocks:zero-block', 'expect:offered',
